@@ -1182,7 +1182,13 @@ func (m *Model) numberMethod(a *Node, item any, next emitFn, isDecimal bool) *me
 	frac.Abs(frac)
 	d := new(big.Rat).Sub(frac, big.NewRat(1, 2))
 	d.Abs(d)
-	if d.Cmp(big.NewRat(1, 1000000)) < 0 && s < 300 && s > -300 {
+	// the implementation rounds num*10^s in binary floating point: its resolution is one ulp of
+	// the scaled value, so a tie is "near" when it is within 2^-49 of the scaled magnitude
+	noise := new(big.Rat).Mul(new(big.Rat).Abs(scaled), new(big.Rat).SetFrac(big.NewInt(1), new(big.Int).Lsh(big.NewInt(1), 49)))
+	if noise.Cmp(big.NewRat(1, 1000000)) < 0 {
+		noise = big.NewRat(1, 1000000)
+	}
+	if d.Cmp(noise) < 0 && s < 300 && s > -300 {
 		return openErr("decimal rounding within float noise of a tie")
 	}
 	rounded := roundHalfAway(scaled)
